@@ -60,5 +60,5 @@ META = {
 }
 
 PROPERTIES["C19"] = {"components": ["actor"], "coq_files": ["Properties/C19_core.v"], "rule": _RULE + "; plus event-stream scenarios: 2-4 subscribers under one parent, two event types, subscribe twice / unsubscribe / unsubscribe-all / publish from actors and racing external callers, subscribers dying (poison or not) and being restarted in between",
-                     "modelled_not_verified": _MNV + ["publication order per publisher at each subscriber follows from per-sender FIFO (C02)"], "monitor_filter": r"^c19-|^crash$"}
+                     "modelled_not_verified": _MNV + ["publication order per publisher at each subscriber follows from per-sender FIFO (C02)"], "monitor_filter": r"^c19-|^c06-subscription-outlives-actor$|^crash$"}
 META["C19"] = _meta("Event stream: table invariants, fan-out = the subscribers at the snapshot, cleanup on death, restart keeps subscriptions.")
